@@ -212,7 +212,7 @@ class Interp:
         self.hooks = {}           # callee name -> f(interp, call node, args) -> value
         self.align = None         # {buffer base: address residue}: makes (uintptr_t)ptr concrete modulo a page
         self.forced = {}          # {local decl id: value}: the local holds this value whatever is assigned to it
-        self.heap0 = None         # {(base, byte offset): value}: initial contents of tracked objects whose scalar
+        self.heap0 = {}            # tracked object state (struct members, locals whose address is taken)
         self.heap = None          # fields are state (not data); stores update it, loads read it (per explored path)
         self.ptr_to_int = False   # a pointer was converted to an integer while no residue was given
         self.events = []          # free-form events recorded by hooks (per outcome)
@@ -526,6 +526,8 @@ class Interp:
         """Ptr to a const file-scope object whose initialiser is known (its members are put in the heap)."""
         if self.heap is None:
             return None
+        if name in (self.__dict__.get("seeded_globals") or {}):
+            return Ptr("g:" + name, 0, self.seeded_globals[name])
         cache = self.__dict__.setdefault("_globals", {})
         if name in cache:
             g = cache[name]
@@ -534,6 +536,9 @@ class Interp:
             same = [g_ for g_ in cands if g_.get("file") == fn.file]
             g = (same or cands or [None])[0]
             cache[name] = g
+        seeded = self.__dict__.get("seeded_globals") or {}
+        if name in seeded:
+            return Ptr("g:" + name, 0, seeded[name])     # a mutable global whose state the caller supplied in heap0
         if g is None or not g.get("const"):
             return None
         base = "g:" + name
@@ -729,7 +734,8 @@ class Interp:
         if not isinstance(p, Ptr):
             return
         if not isinstance(p.off, int) or not isinstance(size, int):
-            self.unknown_mem.append((p.base, kind, node))
+            if not (isinstance(p.base, str) and p.base.startswith("g:")):
+                self.unknown_mem.append((p.base, kind, node))     # (a lookup in a const table of the program is not a buffer access)
             return
         self.acc.append(Access(p.base, p.off, p.off + size, kind, node, masked))
 
@@ -845,7 +851,8 @@ class Interp:
             pv = self.rv(self.ev(n.c[0], env, fn, depth), env)
             if isinstance(pv, tuple) and pv and pv[0] == "ADDR" and len(pv) > 3:
                 return pv[3].get(pv[1], U)          # *(&local) in the frame that owns the local
-        if n.k in ("ArraySubscriptExpr", "MemberExpr") or (n.k == "UnaryOperator" and n.op == "*"):
+        if n.k in ("ArraySubscriptExpr", "MemberExpr") or (n.k == "UnaryOperator" and n.op == "*") or \
+                (n.k == "DeclRefExpr" and n.get("dk") == "global"):
             p, size = self.addr(n, env, fn, depth)
             if p is not None:
                 self.access(p, size, "r", lnode)
@@ -886,6 +893,10 @@ class Interp:
                 return p if p is not None else U
             if t.k == "DeclRefExpr" and ("obj", t.get("d")) in env:
                 return env[("obj", t.get("d"))]
+            if t.k == "DeclRefExpr" and t.get("dk") == "global" and self.heap is not None:
+                g = self.global_ptr(t.name, fn)
+                if g is not None:
+                    return g
             if t.k == "DeclRefExpr" and t.get("d") is not None and t.get("dk") in ("local", "param"):
                 return ("ADDR", t.get("d"), t.t, env)      # address of a local: carries the frame it lives in
             return U
